@@ -76,6 +76,7 @@ let judges : (string * (Gsext.sx -> Gsext.verdict)) list = [
   "C14", Gsext.judge_C14;
   "C17", Gsext.judge_C17;
   "render17", Gsext.render17;
+  "C19", Gsext.judge_C19;
   "C20o", Gsext.judge_C20o;
   "C20m", Gsext.judge_C20m;
   "C20e", Gsext.judge_C20e;
